@@ -332,6 +332,10 @@ def _run(ctx):
                 if e.kind == "call" and (e.a == eb.path or e.a.startswith(SER) or e.a == "nix::unistd::write"):
                     early += 1
         ck.ob("C18-R2", WRITER, "nothing-emitted-before-the-events", early == 0)
+        # no way out that gets round the loop (a fast path for "small" or "empty" batches would write something else)
+        bypass = [p for p in pre if p.outcome[0] == "return" and not any(e.kind == "loop" for e in p.events)]
+        ck.ob("C18-R2", WRITER, "every-return-path-runs-the-loop-over-the-batch", not bypass,
+              detail=None if not bypass else "%d return path(s) without the loop" % len(bypass))
 
     # ---------------- R3 reader
     rb = ctx.body(READER)
